@@ -543,16 +543,34 @@ func (a *ActApp) Def() channel.AppID { return a.id }
 // NewData implements channel.App.
 func (a *ActApp) NewData() channel.Data { return &BytesData{} }
 
+// RefusedActionMarker as first payload byte makes ActApp.ValidAction refuse the action.
+const RefusedActionMarker = 0xEE
+
 // ValidAction implements channel.ActionApp.
-func (a *ActApp) ValidAction(*channel.Params, *channel.State, channel.Index, channel.Action) error {
+func (a *ActApp) ValidAction(_ *channel.Params, _ *channel.State, _ channel.Index, act channel.Action) error {
+	if b, ok := act.(*BytesAction); ok && b != nil && len(b.B) > 0 && b.B[0] == RefusedActionMarker {
+		return channel.NewActionError(channel.ID{}, "refused action")
+	}
 	return nil
 }
+
+// ActApplyData is the data ActApp.ApplyActions computes from the given action payloads.
+func ActApplyData(acts [][]byte) []byte {
+	d := []byte{}
+	for _, x := range acts {
+		d = append(d, x...)
+	}
+	return d
+}
+
+// ActInitData is the data ActApp.InitState computes from the given action payloads.
+func ActInitData(acts [][]byte) []byte { return append([]byte{1}, ActApplyData(acts)...) }
 
 // ApplyActions implements channel.ActionApp.
 func (a *ActApp) ApplyActions(_ *channel.Params, s *channel.State, acts []channel.Action) (*channel.State, error) {
 	ns := s.Clone()
 	ns.Version++
-	d := &BytesData{}
+	d := &BytesData{B: []byte{}}
 	for _, x := range acts {
 		if b, ok := x.(*BytesAction); ok && b != nil {
 			d.B = append(d.B, b.B...)
@@ -563,8 +581,14 @@ func (a *ActApp) ApplyActions(_ *channel.Params, s *channel.State, acts []channe
 }
 
 // InitState implements channel.ActionApp.
-func (a *ActApp) InitState(*channel.Params, []channel.Action) (channel.Allocation, channel.Data, error) {
-	return a.Init.Clone(), &BytesData{B: []byte{1}}, nil
+func (a *ActApp) InitState(_ *channel.Params, acts []channel.Action) (channel.Allocation, channel.Data, error) {
+	d := []byte{1}
+	for _, x := range acts {
+		if b, ok := x.(*BytesAction); ok && b != nil {
+			d = append(d, b.B...)
+		}
+	}
+	return a.Init.Clone(), &BytesData{B: d}, nil
 }
 
 // NewAction implements channel.ActionApp.
